@@ -308,6 +308,10 @@ type Worker struct {
 	recoverFrames   []*frame
 	taskSeq         int
 	curTask         int
+	sched           *scheduler
+	schedUsed       bool
+	timeSeq         int
+	lastSince       *Term
 }
 
 type ChooseRec struct {
@@ -400,9 +404,13 @@ func (w *Worker) runPath(j Job) {
 	}
 
 	completed := false
+	w.sched = nil
+	w.schedUsed = false
+	w.timeSeq, w.lastSince = 0, nil
 	func() {
 		defer func() {
 			r := recover()
+			w.schedFinish()
 			if r == nil {
 				return
 			}
@@ -794,6 +802,7 @@ type Tape struct {
 	Floats  map[string]string  `json:"floats"`
 	FBits   map[string]uint64  `json:"fbits,omitempty"`
 	Msg     string             `json:"msg,omitempty"`
+	Sched   bool               `json:"sched,omitempty"`
 	Pkg     string             `json:"pkg"`
 	Tags    string             `json:"tags"`
 	Model   string             `json:"model"`
@@ -801,7 +810,7 @@ type Tape struct {
 }
 
 func (w *Worker) buildTape(m Model) *Tape {
-	t := &Tape{Harness: w.ex.name, Choose: map[string]int64{}, Ints: map[string]int64{}, Uints: map[string]uint64{}, Floats: map[string]string{}, FBits: map[string]uint64{}}
+	t := &Tape{Sched: w.schedUsed, Harness: w.ex.name, Choose: map[string]int64{}, Ints: map[string]int64{}, Uints: map[string]uint64{}, Floats: map[string]string{}, FBits: map[string]uint64{}}
 	for _, c := range w.chooses {
 		t.Choose[c.Name] = c.Val
 	}
